@@ -273,6 +273,12 @@ func checkC08(e *Env) {
 	chi := e.fn("signedexchange.(*Exchange).ComputeHeaderIntegrity")
 	e.requireGates("GATE", chi, gate.Outcome{Kind: gate.ErrNil, Idx: 1}, noCfg,
 		gate.CallOK("I.dump", "(*signedexchange.Exchange).DumpExchangeHeaders", "param:e", "local:headerBuf"))
+	// the header bytes written are encoded from the exchange as it is now, on
+	// every successful path (seed C08-g: a cache of an earlier encoding)
+	if deh := e.fn("signedexchange.(*Exchange).DumpExchangeHeaders"); deh != nil {
+		e.requireGates("GATE", deh, gate.Outcome{Kind: gate.ErrNil, Idx: 0}, noCfg,
+			gate.CallOK("DH.encode-now", "(*signedexchange.Exchange).encodeExchangeHeaders", "param:e", "call:cbor.NewEncoder(param:w)"))
+	}
 	e.requireResult("RESULT", chi, gate.Outcome{Kind: gate.ErrNil, Idx: 1}, 0,
 		`(const:"sha256-" + call:(*base64.Encoding).EncodeToString(global:base64.StdEncoding,call:sha256.Sum256(call:(*bytes.Buffer).Bytes(local:headerBuf))))`,
 		`"sha256-" + base64(SHA-256(header bytes))`)
